@@ -74,13 +74,20 @@ def run(ck, prog):
             m = re.search(r"SourceDatabase(>)?::(set_file_content|set_source_root|set_resolved_include_map)$", d)
             if m:
                 writers.setdefault(m.group(2), set()).add(b.path)
-    allowed = {"set_file_content": {"ide::analysis::AnalysisHost::set_file_content", "ide::file_system::resolve_include_file"},
-               "set_source_root": {"ide::analysis::AnalysisHost::set_root_file"},
-               "set_resolved_include_map": {COLLECT}}
-    for inp, al in allowed.items():
+    # a writer must sit below the two mutators of AnalysisHost (main loop, exclusive access) and must not be
+    # reachable from a query function or from the snapshot API (a write inside a query deadlocks or is lost)
+    mutators = [p for p in prog.bodies if re.search(r"AnalysisHost::(set_file_content|set_root_file)$", p)]
+    ck.anchor(len(mutators) == 2, "AnalysisHost::set_file_content / set_root_file not found")
+    below = cg.reachable(mutators) | set(mutators)
+    snapshot_api = [p for p in prog.bodies if re.match(r"ide::analysis::Analysis::\w+$", p)]
+    from_queries = cg.reachable(list(QUERIES) + snapshot_api)
+    for inp in ("set_file_content", "set_source_root", "set_resolved_include_map"):
         w = writers.get(inp, set())
-        ck.ob("R07.2", "writers:%s" % inp, bool(w) and w <= al, "%s written by %s" % (inp, sorted(w)),
-              msg="salsa input %s is written from %s (expected only %s)" % (inp, sorted(w - al), sorted(al)))
+        outside = sorted(x for x in w if x not in below)
+        inside_q = sorted(x for x in w if x in from_queries)
+        ck.ob("R07.2", "writers:%s" % inp, bool(w) and not outside and not inside_q, "%s written by %s" % (inp, sorted(w)),
+              msg="salsa input %s is written from %s: outside AnalysisHost's mutators %s / reachable from a query or the "
+                  "snapshot API %s" % (inp, sorted(w), outside, inside_q))
 
     # ---- R07.3 -------------------------------------------------------------------
     sr = prog.body("ide::analysis::AnalysisHost::set_root_file")
